@@ -15,6 +15,7 @@ and a SetFlagBits(PCF_FORCE_SPACE) must be reachable through conditions that are
 `[` `]` (uncrustify's own pseudo punctuator `[]`) is exempt.  This is constant folding of one guard over a finite
 table extracted from the source - no part of uncrustify is executed.
 """
+import re
 from collections import deque
 
 from ..facts import expr_str, enum_consts
@@ -56,35 +57,85 @@ class FusionEval(EofWalk):
     def __init__(self, db, f):
         EofWalk.__init__(self, db)
         self.f0 = f
+        self.scopes = {f.key: None}
         self.bind = {}
         self.a = self.b = ""
         self.m = None
         self.lang = None
 
+    def _s(self, f, i):
+        """text of expression i, in the names of space_text() (parameters of a helper are replaced by its arguments)"""
+        s = expr_str(f, i)
+        amap = self.scopes.get(f.key)
+        if amap:
+            s = re.sub(r"\\b(%s)\\b" % "|".join(map(re.escape, amap)), lambda m: amap[m.group(1)], s)
+        return s
+
+    def helper(self, g, amap, depth):
+        """three-valued result of a bool helper of space_text() whose chunk arguments are space_text()'s own variables"""
+        if g.key in self.scopes or depth > 3:
+            return U
+        self.scopes[g.key] = amap
+        env = {}
+        rets = set()
+        seen = set()
+        dq = deque([g.entry])
+        while dq:
+            b = dq.popleft()
+            if b in seen:
+                continue
+            seen.add(b)
+            for n in g.blocks[b]["n"]:
+                if n["k"] == "decl":
+                    for v in n.get("vars", ()):
+                        if "init" in v:
+                            env[v["n"]] = self.eval(g, v["init"], env, depth + 1)
+                elif n["k"] == "asg" and (g.nodes.get(n["a"][0]) or {}).get("k") == "ref":
+                    env[g.nodes[n["a"][0]]["n"]] = U
+                elif n["k"] == "ret" and n.get("a"):
+                    rets.add(as_bool(self.eval(g, n["a"][0], env, depth + 1)))
+            ss = g.succ[b]
+            t = g.blocks[b].get("term")
+            if t and len(ss) == 2 and t["k"] not in ("SwitchStmt", "CXXForRangeStmt") and t.get("lc", t.get("c")) is not None:
+                v = as_bool(self.eval(g, t.get("lc", t.get("c")), env, depth + 1))
+                if v is T:
+                    ss = [ss[0]]
+                elif v is F:
+                    ss = [ss[1]]
+            for x in ss:
+                if x >= 0:
+                    dq.append(x)
+        del self.scopes[g.key]
+        if rets == {T}:
+            return T
+        if rets == {F}:
+            return F
+        return U
+
     def eval(self, f, i, env, depth=0):
         n = f.nodes.get(i)
         if n is None:
             return U
-        if f is self.f0:
-            s = expr_str(f, i)
+        if f.key in self.scopes:
+            s = self._s(f, i)
             if s in self.bind:
                 return self.bind[s]
             if n["k"] == "call":
                 c = n.get("c") or ""
                 if c == "strcmp" and len(n.get("a", ())) == 2:
-                    x, y = expr_str(f, n["a"][0]), f.nodes.get(n["a"][1])
+                    x, y = self._s(f, n["a"][0]), f.nodes.get(n["a"][1])
                     while y is not None and y["k"] == "cast":
                         y = f.nodes.get(y["a"][0])
                     if x == "ct->tag" and y is not None and y["k"] == "str" and self.m is not None:
                         return I(0 if self.m == y["v"] else 1)
                     return U
-                if c == "strlen" and n.get("a") and expr_str(f, n["a"][0]) == "ct->tag":
+                if c == "strlen" and n.get("a") and self._s(f, n["a"][0]) == "ct->tag":
                     return I(len(self.m)) if self.m is not None else U
                 if c.endswith("Chunk::IsString") and n.get("a") and "o" in n:
                     y = f.nodes.get(n["a"][0])
                     while y is not None and y["k"] == "cast":
                         y = f.nodes.get(y["a"][0])
-                    who = expr_str(f, n["o"])
+                    who = self._s(f, n["o"])
                     txt = self.a if who == "pc" else (self.b if who == "next" else None)
                     if txt is not None and y is not None and y["k"] == "str":
                         return txt == y["v"]
@@ -93,7 +144,7 @@ class FusionEval(EofWalk):
                     y = f.nodes.get(n["a"][0])
                     while y is not None and y["k"] == "cast":
                         y = f.nodes.get(y["a"][0])
-                    who = expr_str(f, n["o"])
+                    who = self._s(f, n["o"])
                     txt = self.a if who == "pc->GetStr()" else (self.b if who == "next->GetStr()" else None)
                     if txt is not None and y is not None and y["k"] == "str" and len(n["a"]) == 1:
                         return txt.startswith(y["v"])
@@ -105,10 +156,18 @@ class FusionEval(EofWalk):
                     return U
                 if c.startswith("Chunk::") or c.startswith("uncrustify::options::") or c.startswith("uncrustify::Option<"):
                     return U
+                g = self.db.func_of_call(f, n)
+                if g is not None and "o" not in n and g.file == f.file and n.get("a"):
+                    args = [self._s(f, a) for a in n["a"]]
+                    ps = [p["n"] for p in g.d.get("params", ())]
+                    if len(ps) == len(args) and all(a in ("pc", "next", "tmp") for a in args):
+                        return self.helper(g, dict(zip(ps, args)), depth + 1)
         return EofWalk.eval(self, f, i, env, depth)
 
 
-def fusion_table(ctx, r):
+def fusion_table(ctx, r, converse=False):
+    """converse=False: every fusing pair can be forced (C02).  converse=True: no pair that does not fuse is forced (C19:
+    Remove gives none except where the two tokens written without a space would lex differently)."""
     db = ctx.db
     f = db.fn("space_text", file=SPACE)
     r.names(f, "pc", "next", "kw1", "kw2", "ct", "buf", "tmp")
@@ -126,6 +185,7 @@ def fusion_table(ctx, r):
     sets = set(n["i"] for n in f.all_nodes() if n["k"] == "call" and (n.get("c") or "").endswith("::SetFlagBits") and "PCF_FORCE_SPACE" in enum_consts(f, n["i"]))
     decide = db.calls_in(f, "do_space_ensured")
     r.require(len(resets) == 1 and sets and len(decide) == 1, "space_text: reset/set/decision anchors not found")
+    resets0 = resets
     reset, decide = resets[0], decide[0]
     fp = db.calls_in(f, "find_punctuator")
     r.require(len(fp) == 1 and expr_str(f, fp[0]["a"][0]) == "buf", "space_text no longer calls find_punctuator(buf, ..) exactly once")
@@ -177,7 +237,8 @@ def fusion_table(ctx, r):
                 n_pairs += 1
                 s = a + b
                 m_lex = max((x for x in lex if s.startswith(x)), key=len, default=None)
-                if m_lex is None or len(m_lex) <= len(a) or m_lex == "[]":
+                fuses = not (m_lex is None or len(m_lex) <= len(a) or m_lex == "[]")
+                if fuses == converse:
                     continue
                 n_risk += 1
                 m = max((x for x in Pset if s[:6].startswith(x)), key=len, default=None)
@@ -188,10 +249,22 @@ def fusion_table(ctx, r):
                 ev.bind = {"pc->Len()": I(len(a)), "next->Len()": I(len(b)), "tmp->Len()": I(len(b)), "tmp->IsNotNullChunk()": T,
                            "tmp->IsNewline()": F, "kw1": kw1, "kw2": kw2, "ct": I(1 if m is not None else 0),
                            "pc->GetStr()[pc->Len() - 1]": I(la), "next->GetStr()[0]": I(fb), "cpd.lang_flags": I(bit)}
-                if not may_force():
+                if converse and kw1 and kw2:
+                    n_risk -= 1
+                    continue                      # two word characters: the word/word exception of the property
+                if may_force() == converse:
                     bad.setdefault((a, b, m_lex, m), []).append(L)
     r.seen(n_pairs)
     r.require(n_risk >= 200, "only %d fusing punctuator pairs found: table or lexer model lost" % n_risk)
+    if converse:
+        for (a, b, m_lex, m), Ls in sorted(bad.items()):
+            r.fail("space_text/`%s` `%s`" % (a, b), db.loc(f, resets[0]), "punctuators `%s` and `%s` written without a blank still lex as `%s` then `%s` "
+                   "(languages %s), but a SetFlagBits(PCF_FORCE_SPACE) is reachable for this pair: ensure_force_space() turns a configured "
+                   "remove into force for it" % (a, b, a, b, ",".join(Ls)))
+        if not bad:
+            r.ok("space_text/no-other-pair-is-forced", db.loc(f, fp[0]), "%d non-fusing pairs of %d punctuator pairs over %d languages" % (n_risk, n_pairs, len(LANGS)))
+        r.note("punctuator pairs: %d, not fusing: %d, forced all the same: %d" % (n_pairs, n_risk, len(bad)))
+        return
     for (a, b, m_lex, m), Ls in sorted(bad.items()):
         r.fail("space_text/`%s` `%s`" % (a, b), db.loc(f, fp[0]), "punctuators `%s` and `%s` written without a blank lex as `%s`… (languages %s), but no "
                "SetFlagBits(PCF_FORCE_SPACE) is reachable for this pair (find_punctuator gives `%s`): a sp_ option set to remove fuses them"
